@@ -14,7 +14,8 @@ Inductive cond :=
 | CEq (i j : nat)            (* col_i = col_j *)
 | CLt (i j : nat)            (* col_i < col_j *)
 | CGtC (i : nat) (c : value) (* col_i > constant *)
-| CNotNull (i : nat).        (* col_i IS NOT NULL *)
+| CNotNull (i : nat)         (* col_i IS NOT NULL *)
+| CEqCat (i j k : nat).      (* col_i + col_j = col_k, `+` on strings (strict: NULL if an operand is NULL) *)
 
 Definition col (i : nat) (x : row) : value := nth i x VNull.
 Definition isnull (v : value) : bool := match v with VNull => true | _ => false end.
@@ -25,6 +26,11 @@ Definition eval_cond (c : cond) (x : row) : option bool :=
   | CLt i j => if isnull (col i x) || isnull (col j x) then None else Some (vcompare (col i x) (col j x) =? -1)
   | CGtC i c => if isnull (col i x) || isnull c then None else Some (vcompare (col i x) c =? 1)
   | CNotNull i => Some (negb (isnull (col i x)))
+  | CEqCat i j k =>
+      match col i x, col j x, col k x with
+      | VStr a, VStr b, VStr c => Some (vcompare (VStr (a ++ b)) (VStr c) =? 0)
+      | _, _, _ => None
+      end
   end.
 (* a Filter keeps the rows on which its predicate is TRUE; a conjunction is TRUE iff every conjunct is *)
 Definition holds (c : cond) (x : row) : bool := match eval_cond c x with Some true => true | _ => false end.
@@ -62,7 +68,9 @@ Record c02_case := mkc02 {
   q_out : list rec;           (* observed rows, with the retraction flag the sink printed (stream_native) *)
   (* node-level part (empty for CLI cases): LookupJoin run in-process over a scripted source changelog and a scripted
      joined side (the same changelog for every source record), with retractions on both *)
-  q_lsrc : list rec; q_ljoined : list rec; q_lout : list event
+  q_lsrc : list rec; q_ljoined : list rec; q_lout : list event;
+  (* node-level part: StreamJoin / OuterJoin run in-process under a prescribed schedule (a case of Model/Joins.v) *)
+  q_node : option c19_case
 }.
 
 Fixpoint run_joins (acc : list row) (n : nat) (js : list jstepq) : list row :=
@@ -81,6 +89,13 @@ Definition c02_spec (c : c02_case) : bool := bag_eqb (q_out c) (map ins (c02_exp
 Definition c02_lookup_model (c : c02_case) : list rec := lookup_join (fun _ => q_ljoined c) (q_lsrc c).
 Definition c02_lookup_tie (c : c02_case) : bool := events_eqb (map Rec (c02_lookup_model c)) (q_lout c).
 Definition c02_lookup_spec (c : c02_case) : bool := bag_eqb (records (q_lout c)) (c02_lookup_model c).
+
+(* StreamJoin / OuterJoin on changelogs with retractions and event times: exact emissions against the node model, and
+   the relational oracle (join / outer join of the complete inputs at end of stream, of the records at or below W at
+   every forwarded watermark) on the node's output *)
+Definition c02_node_tie (c : c02_case) : bool := match q_node c with Some n => c19_tie n | None => true end.
+Definition c02_node_spec (c : c02_case) : bool :=
+  match q_node c with Some n => c19_spec_final n && c19_spec_at_wm n | None => true end.
 
 (* ---- node level: the equalities of ON as join keys ---- *)
 Fixpoint eq_conds (is js : list nat) : list cond :=
